@@ -1,5 +1,6 @@
 import AsyncFix.Lemmas.SessionResendMain
 import AsyncFix.Lemmas.SessionResendWitness
+import AsyncFix.Lemmas.SessionResendShared
 
 /-!
 # C06 – a ResendRequest is answered completely, in order and without side effects
@@ -294,6 +295,23 @@ theorem resend_reply_chain (sr : Msg → Bool) (env : Env) (c : Conn) (m : Msg) 
   intro p hp
   obtain ⟨a1, a2, a3⟩ := g8 p hp
   exact ⟨a1, by omega, a3⟩
+
+/-! ### a journal shared with other sessions
+
+The session model holds the journal of one session; `Served` / `Ignored` speak about its rows.  When the
+same `Journaler` also serves other sessions, nothing of theirs may change either.  `_process_resend`
+calls the journaler only through `recover_messages`, `set_seq_num` and `persist_msg` with its own
+session object (`OnSession k`); for the multi-session journal model of property C13: -/
+
+/-- Any sequence of journaler calls made with session `k`'s object, on any journal satisfying C13's
+invariant (i.e. after any history, `C13.jinv_reachable`), leaves every OTHER session's rows (inbound and
+outbound, every number), stored counters and CompID registration exactly as they were. -/
+theorem journal_calls_leave_other_sessions (j : AsyncFix.Model.Journal.Journal)
+    (hinv : AsyncFix.Model.Journal.JInv j) (ops : List AsyncFix.Model.Journal.Op) (k : Int)
+    (h : ∀ op ∈ ops, OnSession k op) :
+    SameElsewhere k (AsyncFix.Model.Journal.abs j)
+      (AsyncFix.Model.Journal.abs (AsyncFix.Model.Journal.applyOps j ops)) :=
+  other_sessions_untouched j hinv ops k h
 
 /-! ### non-vacuity: a concrete journal satisfies the hypotheses and yields the expected chain
 
